@@ -305,7 +305,7 @@ def run(ctx):
         descs.append({"corpus": name, "net": js, "numba": True, "_obs": obs, "_k": 99})
         terms.append(_term(term, obs))
         ctx.count("corpus")
-    for k in range(ctx.n(150, 2500)):
+    for k in range(ctx.n(126, 2500)):
         r = rng.random()
         net = g.rand_topo_net(rng, allow_bridge=(r < 0.5), dcline=(None if r < 0.8 else False))
         if k % 6 == 5:
